@@ -933,6 +933,16 @@ func (e *Env) call(x *ECall) Val {
 	case "offset":
 		a := e.tr(x.Args[0])
 		return Val{T: "(s_off " + a.T + ")", Ty: intTy}
+	case "at":
+		// at(s, p): element at ABSOLUTE position p of s's backing region (s[i] == at(s, offset(s)+i)).
+		// Useful as a quantifier trigger that matches element reads made through any sub-slice of the region.
+		a := e.tr(x.Args[0])
+		st, ok := a.Ty.Underlying().(*types.Slice)
+		if !ok || isStruct(st.Elem()) {
+			e.fail("at() needs a slice of non-struct elements")
+		}
+		pv := e.materialize(e.tr(x.Args[1]), intTy)
+		return Val{T: sel(c.regionArr(e.heap, c.elemsHeap(st.Elem()), "(s_reg "+a.T+")"), c.toIdx(pv.T, pv.Ty)), Ty: st.Elem()}
 	case "bit":
 		// bit(x, k): boolean test of bit k (bv mode)
 		a := e.mat(e.tr(x.Args[0]))
